@@ -19,7 +19,7 @@ import re
 import subprocess
 from concurrent.futures import ThreadPoolExecutor
 
-from common import REPO, VERIF, Rng, parse_coq_value, sh, tail
+from common import CACHE, REPO, VERIF, Rng, parse_coq_value, sh, tail
 
 LEVEL = "proof"
 REQUIRED = ["C08_insert", "C08_remove", "C08_contains", "C08_iter_sorted", "C08_is_empty", "C08_clear",
@@ -714,6 +714,28 @@ def template_uniformity(ctx, path=None):
         ctx.broken.append("template uniformity: " + b[:300])
 
 
+def build_scratch_driver(ctx, runtime_dir):
+    """Copy harness/ptree-driver to a scratch dir with the eqlog-runtime path replaced (never edits /repo or
+    harness/); used only when VERIF_C08_RUNTIME is set (seeded-change demonstrations)."""
+    import shutil
+    src = os.path.join(VERIF, "harness", "ptree-driver")
+    tag = hashlib.sha256(os.path.abspath(runtime_dir).encode()).hexdigest()[:12]
+    dst = os.path.join(CACHE, "scratch", "ptree-driver-%s" % tag)
+    os.makedirs(os.path.join(dst, "src"), exist_ok=True)
+    toml = open(os.path.join(src, "Cargo.toml")).read().replace('path = "/repo/eqlog-runtime"',
+                                                                 'path = "%s"' % os.path.abspath(runtime_dir))
+    open(os.path.join(dst, "Cargo.toml"), "w").write(toml)
+    shutil.copy(os.path.join(src, "src", "main.rs"), os.path.join(dst, "src", "main.rs"))
+    shutil.copy(os.path.join(REPO, "Cargo.lock"), os.path.join(dst, "Cargo.lock"))
+    rc, out = sh("cargo build --offline --release --manifest-path %s/Cargo.toml" % dst,
+                 env={"CARGO_TARGET_DIR": os.path.join(dst, "target")}, timeout=3600)
+    if rc != 0:
+        ctx.broken.append("ptree-driver does not build against %s" % runtime_dir)
+        ctx.obligation("harness:ptree-driver", False, tail(out, 30))
+        return None
+    return os.path.join(dst, "target", "release")
+
+
 # ------------------------------------------------------------------ the check
 
 def run(ctx):
@@ -727,11 +749,18 @@ def run(ctx):
                        "get_mut / iter_restrictions_mut are outside the property (they can break the invariant by design)",
                        "tuples of the wrong length (a type error in Rust) are excluded by hypothesis"]
     check_copies(ctx)
-    template_uniformity(ctx)
+    rt = os.environ.get("VERIF_C08_RUNTIME")
+    template_uniformity(ctx, os.path.join(rt, "src", "prefix_tree.rs") if rt else None)
     ok, _ = ctx.coq_build("PTree")
     if ok:
         ctx.coq_props("PTree", "Props_C08.v", required=REQUIRED)
-    bindir = ctx.cargo_build("ptree-driver")
+    rt = os.environ.get("VERIF_C08_RUNTIME")
+    if rt:
+        # testing hook for seeded changes: build the driver against another copy of eqlog-runtime
+        ctx.cov["runtime_override"] = rt
+        bindir = build_scratch_driver(ctx, rt)
+    else:
+        bindir = ctx.cargo_build("ptree-driver")
     replay = getattr(ctx, "replay", None)
     if replay:
         seqs, n_exh = [seq_from_rust(json.load(open(replay))["driver_input"])], 0
@@ -781,7 +810,8 @@ def run(ctx):
         if model is None or bad:
             why = judge_impl(s, lines, panic)
             if why:
-                ctx.violation({"kind": "input", "arity": s["n"], "ops": [op_coq(o) for o in s["ops"]],
+                ctx.violation({"kind": "input", "arity": s["n"], "silent_prefix": [op_coq(o) for o in s.get("pre") or []],
+                               "ops": [op_coq(o) for o in s["ops"]],
                                "driver_input": seq_rust(s),
                                "model_query": seq_coq(s)}, why)
                 dis += 1
